@@ -30,6 +30,17 @@ def oracle(rot, t24, p):
     return len(imgs)
 
 
+def stabiliser(rot, t24, p):
+    den = p[1]
+    num = np.array(p[0], dtype=object)
+    n = 0
+    for R, t in zip(rot, t24):
+        v = [int((sum(int(R[a][b]) * num[b] for b in range(3)) * 24 + int(t[a]) * den - num[a] * 24) % (24 * den)) for a in range(3)]
+        if v == [0, 0, 0]:
+            n += 1
+    return n
+
+
 _TABLES = None
 
 
@@ -54,6 +65,13 @@ def _job(args):
     for (num, den, shift, how) in positions:
         pos = [num[k] / den + shift[k] for k in range(3)]
         exp = oracle(o.rot, t24, (num, den))
+        # orbit-stabiliser: nsymop / |site-symmetry group| must be the same number (fails if the table is not a group)
+        stab = stabiliser(o.rot, t24, (num, den))
+        if o.nsymop % stab != 0 or o.nsymop // stab != exp:
+            fails.append({'table': name, 'setting': setting, 'sgno': o.no, 'position_exact': '%s/%d' % (list(num), den),
+                          'family': how, 'orbit_size': exp, 'nsymop': o.nsymop, 'site_symmetry_order': stab,
+                          'problem': 'orbit size != nsymop / order of the site-symmetry group (the table is not a group)'})
+            break
         for by in ('number', 'name'):
             if by == 'number':
                 got = S.multiplicity(pos, sgno=o.no, cell_choice=cc)
